@@ -116,6 +116,15 @@ def run(ctx):
     # re-submission by the timer, replay in a later invocation) and no id serves two positions
     from harness import comp_executor
     comp_executor.run_prop(ctx, "C08", n_quick=80, n_thorough=2000)
+    # the same with line-level scheduling points inside the id-deriving functions (shared executor context)
+    for i in range(ctx.scale(80, 2000)):
+        sc = comp_executor.gen_scenario0(ctx.rng, zero_p=0.0)
+        sc["fine"] = True
+        comp_executor.one(ctx, "C08", sc, ctx.rng.randrange(1 << 30), component="executor.fine")
+    # sequential workflows over several invocations: ids and parent links of every update actually sent
+    # (retries, failures, replays), compared with the engine model as well
+    from harness import comp_engine
+    comp_engine.run(ctx, "C08", n_quick=150, n_thorough=3000)
 
 
 def search(ctx):
@@ -133,6 +142,10 @@ def replay(ctx, rec):
     if "blocks" in (case.get("scenario") or {}):
         from harness import comp_executor
         comp_executor.replay(ctx, rec, "C08")
+        return
+    if "script" in case:
+        from harness import comp_engine
+        comp_engine.replay(ctx, rec, "C08")
         return
     if "paths" in case:
         check_paths(ctx, case["paths"])
